@@ -21,7 +21,7 @@ std::vector<Op> menu_ops()
 	return {
 		{ LISTEN, 0, 0, "A0.listen()" }, { LISTEN, 1, 0, "A1.listen()" },
 		{ ACCEPT, 0, 0, "A0.async_accept(peer)" }, { ACCEPT, 0, 1, "A0.async_accept(peer, endpoint)" }, { ACCEPT, 0, 2, "A0.async_accept(move-handler)" },
-		{ ACCEPT, 1, 1, "A1.async_accept(peer, endpoint)" },
+		{ ACCEPT, 1, 1, "A1.async_accept(peer, endpoint)" }, { ACCEPT, 0, 3, "A0.accept-loop(peer, endpoint): re-posted after every completion" },
 		{ CONNECT, 0, T_A0, "c0.connect(A0)" }, { CONNECT, 1, T_A0, "c1[nat].connect(A0)" }, { CONNECT, 2, T_A0, "c2.connect(A0)" },
 		{ CONNECT, 3, T_A1, "c3[v6].connect(A1)" }, { CONNECT, 2, T_BOUND_ONLY, "c2.connect(bound, not listening)" }, { CONNECT, 0, T_UNBOUND, "c0.connect(unbound)" },
 		{ CLOSE_EC, 0, 0, "A0.close(ec)" }, { CLOSE_NOARG, 0, 0, "A0.close()" }, { CLOSE_CLIENT, 0, 0, "c0.close()" },
@@ -36,7 +36,7 @@ struct Exec
 	uint64_t n_pairs = 0, n_refused = 0, n_queued = 0, n_tags = 0;
 
 	struct MC { bool issued = false, done = false, closed = false; int target = -1; int64_t t_issue = -1, t_done = -1; std::string ec; bool listening_at_issue = false; int acc_idx = -1; std::string got_tags; bool tag_sent = false; };
-	struct MA { bool listening = false, closed = false; bool accept_outstanding = false; int overload = 0; std::vector<int> syn_order; int accepts_ok = 0; };
+	struct MA { bool listening = false, closed = false; bool accept_outstanding = false; bool loop = false; int overload = 0; std::vector<int> syn_order; int accepts_ok = 0; };
 	struct AS { std::shared_ptr<ip::tcp::socket> s; int acceptor; int order; int client = -1; std::string got_tags; std::vector<char> buf; bool closed = false; };
 	MC mc[4]; MA ma[2];
 	std::vector<std::unique_ptr<AS>> accepted;
@@ -85,6 +85,7 @@ struct Exec
 		if (api_depth() > 0) fail("inline: accept handler invoked inside a library call");
 		M.accept_outstanding = false;
 		log.push_back(fmt("@%lld   A%d accept (overload %d) completes: %s", (long long)t, ai, overload, ecs(ec).c_str()));
+		bool const rearm = M.loop && !ec && !M.closed;
 		if (ec) { if (ec != asio::error::operation_aborted) fail(fmt("accept_error: accept on A%d completed with %s", ai, ecs(ec).c_str())); return; }
 		std::unique_ptr<AS> as(new AS); as->acceptor = ai; as->order = M.accepts_ok++;
 		if (overload == 2) as->s = std::shared_ptr<ip::tcp::socket>(moved.release());
@@ -106,6 +107,7 @@ struct Exec
 			mc[cl].acc_idx = int(accepted.size());
 			++n_pairs;
 		}
+		if (rearm) { M.accept_outstanding = true; VF_API(A[ai]->async_accept(*fresh_peer[ai], peer_ep[ai], [this, ai](error_code const& e2) { on_accept(ai, 1, e2, nullptr); })); }
 		AS* raw = as.get(); accepted.push_back(std::move(as));
 		// tag from the accepted side
 		std::string tag = fmt("<S%zu>", accepted.size() - 1);
@@ -125,7 +127,7 @@ struct Exec
 				MA& M = ma[o.a]; M.accept_outstanding = true; M.overload = o.b; int ai = o.a;
 				if (o.b == 0) for (auto& old : accepted) if (old->s == fixed_peer[ai]) old->closed = true; // async_accept closes the reused peer socket right away
 				if (o.b == 0) VF_API(A[ai]->async_accept(*fixed_peer[ai], [this, ai](error_code const& ec) { on_accept(ai, 0, ec, nullptr); }));
-				else if (o.b == 1) VF_API(A[ai]->async_accept(*fresh_peer[ai], peer_ep[ai], [this, ai](error_code const& ec) { on_accept(ai, 1, ec, nullptr); }));
+				else if (o.b == 1 || o.b == 3) { if (o.b == 3) M.loop = true; VF_API(A[ai]->async_accept(*fresh_peer[ai], peer_ep[ai], [this, ai](error_code const& ec) { on_accept(ai, 1, ec, nullptr); })); }
 				else VF_API(A[ai]->async_accept([this, ai](error_code const& ec, ip::tcp::socket s) { on_accept(ai, 2, ec, std::unique_ptr<ip::tcp::socket>(new ip::tcp::socket(std::move(s)))); }));
 				break; }
 			case CONNECT: {
